@@ -13,3 +13,9 @@ Definition ex_g : graph :=
 Definition ex_ins : list (nat * val) := [(0, VStr "k2")].
 Definition ex_apply (f : string) (pos : list val) (kw : list (string * val)) : val := VApp f pos kw.
 
+
+(* x -> f -> [cache 0] -> g -> [cache 1] *)
+Definition c04_g (gname : string) : graph :=
+  [Leaf; Inner (EFunc "f" 1 [] []) [0]; Inner (ECache 0) [1]; Inner (EFunc gname 1 [] []) [2]; Inner (ECache 1) [3]].
+Definition c04_val (gname key : string) : val := VApp gname [VApp "f" [VStr key] []] [].
+
